@@ -213,9 +213,8 @@ row(props=["C01"], func="pkg/adapter/cocafile.GetFilesWithFilter$1", params=["pa
     when='!(call("deref", free_gitIgnore) != nil && call("github.com/sabhiram/go-gitignore.(GitIgnore).MatchesPath", call("deref", free_gitIgnore), ' + RELP + ')) && !contains(path, "testData") && call("dyn", call("deref", free_filter), path)',
     fields={"<elem>": "path"}, what="a file is selected ⇔ not ignored (the ignore file's patterns apply to the path relative to the analysed directory), not under testData, accepted by the filter")
 TT = "pkg/infrastructure/ast/ast_java."
-row(props=["C02"], func=TT + "ParseTargetType", params=["t"], kind="returns",
-    expr='ite(hasSuffix(String(call("reflect.TypeOf", t)), "MethodCallContext"), global("%scurrentClz"), ite(lookup(global("%smapFields"), t) != "", lookup(global("%smapFields"), t), ite(lookup(global("%sformalParameters"), t) != "", lookup(global("%sformalParameters"), t), ite(lookup(global("%slocalVars"), t) != "", lookup(global("%slocalVars"), t), t))))' % ((TT,) * 7),
-    what="receiver type: field, then parameter, then local variable, else the text itself")
+# (no row for ParseTargetType: the order field > parameter > local it implements is not what the property asks for — Java scoping is the
+#  reverse, and the tables are not scoped per method; a row copied from the code would raise an alarm on a correct repair. DESIGN.md §6.)
 row(props=["C17"], func="pkg/application/todo.(TodoApp).AnalysisPath$1", params=["path"], kind="returns",
     expr='exists(call("deref", free_filters), ext, hasSuffix(path, ext))', what="a file is scanned ⇔ its path ends with one of the selected extensions")
 
